@@ -6,6 +6,9 @@ wave = sys.argv[3] if len(sys.argv) > 3 else "1"
 EXTRA = """
 
 Additional requirements for this round: make the two changes as different as possible from the obvious first ideas (do NOT simply weaken a range check or drop a lock). Change 1 must involve STATE CARRIED ACROSS CALLS OR OBJECTS: a cache or memo, a reused or module-level buffer, a shared default object, lazily initialised state, an object returned without copying, or a fast path that skips a state reset - something that only misbehaves after a particular earlier call or sequence of calls. Change 2 must depend on a SPECIFIC UNUSUAL INPUT OR ENVIRONMENT CONDITION: an exact boundary value or length, a rare-but-legal combination of two features, an error raised at a particular point, or a particular order of events. Both must still keep the existing test suite green."""
+EXTRA3 = """
+
+Additional requirements for this round: avoid the obvious ideas (weakening a range check, dropping a lock, adding a cache keyed on too little). Change 1 must live on an ERROR OR RECOVERY PATH: what the library does during or after an operation that raises, is rejected, is interrupted or is abandoned half-way (partially applied updates, state left behind by a failed call, cleanup that is skipped or done twice, an exception of the wrong kind from a rare branch). It must only misbehave after or during such a failure, never on the plain success path. Change 2 must be made in a DIFFERENT FILE OR HELPER than the obvious one - a shared helper, table, base class or utility that the anchored code relies on - or consist of TWO SMALL EDITS AT DIFFERENT SITES that are each harmless alone and only break the property together. Both must still keep the existing test suite green."""
 for l in open('/verif/properties.jsonl'):
     p = json.loads(l)
     if p['id'] == pid: break
@@ -26,4 +29,4 @@ For EACH change i in (1, 2):
  2. Verify the existing tests still pass with the change: `cd {wt} && /venv/bin/python -m pytest -q -p no:cacheprovider -x --deselect tests/midifiles/test_tracks.py::test_merge_large_midifile tests; echo rc=$?` must give rc=0. (Run from inside {wt} so that `import mido` resolves to the worktree; confirm with `cd {wt} && /venv/bin/python -c "import mido; print(mido.__file__)"`.)
  3. Write a small demonstration `{wt}/demo{{i}}.py` (plain Python, run as `cd {wt} && /venv/bin/python demo{{i}}.py`) that exits 0 on the clean tree and exits non-zero (with a clear message on what was observed vs expected) with the change applied. Verify both.
  4. Write `{wt}/change{{i}}.md`: 3-6 lines - what was changed, which clause of the property it breaks, and what exactly is needed for it to manifest.
-Finish with the tree clean (`git -C {wt} checkout -- .`), leaving only the untracked files change1.diff, demo1.py, change1.md, change2.diff, demo2.py, change2.md in {wt}. If you can only find one valid change, deliver one. Use `timeout 600` on any command that could hang. Report briefly what the two changes are.""" + (EXTRA if wave != "1" else ""))
+Finish with the tree clean (`git -C {wt} checkout -- .`), leaving only the untracked files change1.diff, demo1.py, change1.md, change2.diff, demo2.py, change2.md in {wt}. If you can only find one valid change, deliver one. Use `timeout 600` on any command that could hang. Report briefly what the two changes are.""" + ({"1": "", "2": EXTRA, "3": EXTRA3}.get(wave, EXTRA)))
